@@ -25,7 +25,7 @@ func init() {
 	Register(&Rule{
 		ID:    "R-COW",
 		Doc:   "each atomically published cache: the value stored is a map made in the same function, never updated after the Store; no map derived from a Load() is ever updated or deleted from (interprocedural taint); publishers are not reachable from recursive constructors; mutex-guarded caches store under Lock with deferred Unlock",
-		Props: []string{"C09"},
+		Props: []string{"C09", "C03", "C04", "C06"},
 		Min:   map[string]int{"C09": 8},
 		Run:   runCOW,
 	})
@@ -39,7 +39,7 @@ func init() {
 	Register(&Rule{
 		ID:    "R-CLOSURE",
 		Doc:   "steady-state code (codec-typed functions, encoder/decoder methods and their helpers) never stores through a captured variable shared between calls and never stores into a descriptor object (types reachable from the published caches); such stores are legal only in constructors",
-		Props: []string{"C09"},
+		Props: []string{"C09", "C04", "C03"},
 		Min:   map[string]int{"C09": 100},
 		Run:   runClosure,
 	})
@@ -699,6 +699,19 @@ func runCOW(c *core.Ctx) []core.Obligation {
 		}
 	}
 
+	// a published map written in place is also a crash of the call that does it ("concurrent map
+	// writes" is fatal, not a panic): the obligation is registered for the package's "never fails"
+	// property as well
+	for i := range b.out {
+		switch {
+		case strings.Contains(b.out[i].Key, "proto."):
+			b.out[i].Props = append(append([]string{}, b.out[i].Props...), "C03")
+		case strings.Contains(b.out[i].Key, "thrift."):
+			b.out[i].Props = append(append([]string{}, b.out[i].Props...), "C04")
+		case strings.Contains(b.out[i].Key, "json."):
+			b.out[i].Props = append(append([]string{}, b.out[i].Props...), "C06")
+		}
+	}
 	return b.out
 }
 
@@ -1602,10 +1615,20 @@ func runClosure(c *core.Ctx) []core.Obligation {
 				}
 			}
 		}
+		// state shared by every call of a codec is also shared by the nested calls of one Marshal or
+		// Unmarshal: a type that reaches itself re-enters the closure while the outer call still
+		// holds the value, so the round trip breaks without any concurrency
+		sprops := []string{"C09"}
+		switch {
+		case strings.HasPrefix(shortName(fn), "thrift."):
+			sprops = []string{"C09", "C04"}
+		case strings.HasPrefix(shortName(fn), "proto."):
+			sprops = []string{"C09", "C03"}
+		}
 		if len(bads) > 0 {
-			b.bad(key, c.FuncPos(fn), fmt.Sprintf("%s runs on every call, concurrently for the same type, but performs a %s: state shared between goroutines is written without synchronisation", shortName(fn), strings.Join(bads, "; ")))
+			b.addP(sprops, core.Violation, key, c.FuncPos(fn), fmt.Sprintf("%s runs on every call, concurrently for the same type, but performs a %s: state shared between goroutines is written without synchronisation", shortName(fn), strings.Join(bads, "; ")))
 		} else {
-			b.ok(key, c.FuncPos(fn), "no store through shared captured variables or into descriptors")
+			b.addP(sprops, core.Discharged, key, c.FuncPos(fn), "no store through shared captured variables or into descriptors")
 		}
 	}
 	return b.out
